@@ -267,6 +267,8 @@ Definition close_window (m : mode) (o : os) (w : window) : outcome (list ev) :=
 Definition guarded (m : mode) (o : os) (g : xregion) (offset len : N) (write : bool)
   : list ev * outcome (option window) :=
   if on_demand g then
+    (* new_with: `if size == 0 { return Ok(Self::raw(dangling)) }` - an empty range maps nothing *)
+    if len =? 0 then ([], Val None) else
     let '(l1, w) := open_window m o g offset len (if write then PROT_WRITE else PROT_READ) in
     match w with
     | Val w' =>
